@@ -172,6 +172,11 @@ def native_part(tier, seed, limit):
     cases.insert(0, Case(Project("en", ["en", "fr", "de"], {l: tree(l) for l in ("en", "fr", "de")}), "c17_script/plain", roles={"*": "script_context_strings"}))
     nsf = {ns: {l: {"k%d" % i: S(x + ns + l) for i, x in enumerate(hostile[:8])} for l in ("en", "fr")} for ns in ("zz", "user-menu", "aa")}
     cases.insert(1, Case(Project("en", ["en", "fr"], nsf, namespaces=["zz", "user-menu", "aa"]), "c17_nsnames/dash", roles={"*": "script_context_strings"}))
+    # a translation unit without any literal string (only interpolations) registered next to ordinary units: `values: []`
+    evf = {"vars": {l: {"only_var": S(V("name")), "two_vars": S(V("a"), V("b"))} for l in ("en", "fr")},
+           "home": {l: {"title": S("home " + l), "hello": S("hello ", V("name"), " " + l)} for l in ("en", "fr")},
+           "other": {l: {"x": S("x " + l), "y": S("y " + l)} for l in ("en", "fr")}}
+    cases.insert(2, Case(Project("en", ["en", "fr"], evf, namespaces=["vars", "home", "other"]), "c17_emptyunit/ns", roles={"*": "script_context_strings"}))
     # spread over the families
     fams = {}
     for c in cases:
@@ -179,7 +184,7 @@ def native_part(tier, seed, limit):
     order = []
     i = 0
     while len(order) < limit and any(fams.values()):
-        prio = ["c17_script", "c17_nsnames", "c11_unicode", "c11:c03_inherit", "c11:c01_namespaces", "c11:c01_subkeys", "c11:c01_interp", "c11:c06_args", "c11:c01_literals"]
+        prio = ["c17_script", "c17_nsnames", "c17_emptyunit", "c11_unicode", "c11:c03_inherit", "c11:c01_namespaces", "c11:c01_subkeys", "c11:c01_interp", "c11:c06_args", "c11:c01_literals"]
         for f in sorted(fams, key=lambda x: (prio.index(x) if x in prio else len(prio), x)):
             if fams[f]:
                 order.append(fams[f].pop((seed + i) % len(fams[f]) if fams[f] else 0))
